@@ -264,6 +264,25 @@ pub fn plan_attacker(w: &World, knobs: &Knobs, actor: &mut Actor, l: &Ledger) ->
                 flow.push((tx1(i), format!("attacker: {} with a position of another pool", n)));
             }
         }
+        _ if rng.chance(1, 2) => {
+            // the array of ANOTHER pool with the same tick spacing at the same start index (created first if need be - anyone
+            // may initialise arrays): every tick of the position exists in it, only the pool reference is wrong
+            let same_sp: Vec<Pubkey> = decode::pools(l).into_iter().filter(|(k, q)| *k != p.whirlpool && q.tick_spacing == pi.keys.tick_spacing).map(|(k, _)| k).collect();
+            if !same_sp.is_empty() {
+                let other = same_sp[rng.idx(same_sp.len())];
+                let lower_side = rng.chance(1, 2);
+                let start = ta_start(if lower_side { p.lower } else { p.upper }, pi.keys.tick_spacing);
+                let foreign = ix::pda_tick_array(&other, start);
+                let mut ixs: Vec<Ix> = Vec::new();
+                if !l.exists(&foreign) {
+                    ixs.push(init_array_ix(knobs, rng, &other, &actor.wallet, start));
+                }
+                let (mut i, n) = honest(rng);
+                replace_key(&mut i, if lower_side { &la.ta_lower } else { &la.ta_upper }, &foreign);
+                ixs.push(i);
+                flow.push((Tx { ixs }, format!("attacker: {} with the same-start tick array of another pool", n)));
+            }
+        }
         _ => {
             // a tick array of another pool in an array slot
             let others: Vec<Pubkey> = decode::pools(l).into_iter().filter(|(k, _)| *k != p.whirlpool).flat_map(|(k, _)| decode::tick_arrays_of_pool(l, &k).into_iter().map(|(a, _)| a)).collect();
